@@ -77,6 +77,7 @@ class World:
         from datashard.data_structures import ManifestContent
 
         self.backend = backend
+        self.use_early = False
         self.orphan_tip = orphan_tip
         self.s3w: Any = None
         ENV.reset(0)
@@ -103,6 +104,13 @@ class World:
         first = t._get_all_data_files()[0].file_path
         with t.new_transaction() as tx:
             tx.delete_files([first])
+        self.early: Any = None
+        if extra_appends:
+            # a long-lived handle that read the table BEFORE the later commits (made through another handle)
+            self.early = True
+            # the store as it is now (before the later commits): a handle is primed on it before every run
+            self.old_files = {rel: self.view.get(rel) for rel in sorted(self.view.list())}
+            self.old_mtimes = ({rel: self.view.mtime(rel) for rel in self.old_files} if backend == "local" else None)
         for k in range(extra_appends):  # a long history: one more manifest per append (size thresholds in the collector)
             t.append_records([row(100 + k)])
         st = t.storage
@@ -226,8 +234,20 @@ class World:
         """Restore the template, open a fresh handle, plant damage, run garbage_collect(1 h)."""
         from datashard import load_table
 
-        self.restore()
-        t = load_table(self.location)
+        if self.use_early and self.early and self.backend == "local":
+            # a long-lived handle: it last read the table 18 commits ago (primed on the old store), then the store moves
+            # on underneath it (commits made through other handles) and the collection runs through that handle
+            ENV.restore(self.env0)
+            shutil.rmtree(self.root, ignore_errors=True)
+            for rel, data in self.old_files.items():
+                self.put(rel, data, self.old_mtimes[rel])
+            t = load_table(self.location)
+            t.metadata_manager.refresh()
+            t.scan()
+            self.restore()
+        else:
+            self.restore()
+            t = load_table(self.location)
         if damage is not None:
             damage()
         if prepare is not None:
@@ -573,7 +593,7 @@ class Runner:
 def worker(payload: Tuple[Any, ...]) -> Dict[str, Any]:
     part, tier, seed, backend = payload
     rep = Report(PROP, tier, seed, LEVEL)
-    w = World(backend, f"{part}-{os.getpid()}", orphan_tip=(part == "c"), extra_appends=(18 if part == "d" else 0),
+    w = World(backend, f"{part}-{os.getpid()}", orphan_tip=(part == "c"), extra_appends=(18 if part in ("d", "f") else 0),
               leading_slash=(part == "e"))
     r = Runner(rep, w)
     try:
@@ -583,6 +603,9 @@ def worker(payload: Tuple[Any, ...]) -> Dict[str, Any]:
             r.part_a(label="c")  # same fault enumeration, on a table that carries an uncommitted higher metadata version
         elif part == "e":
             r.part_b()  # the file-damage catalogue on a table whose metadata spells manifest lists with a leading slash
+        elif part == "f":
+            w.use_early = True  # the collection runs through a handle that last read the table 18 commits ago
+            r.part_a(label="f")
         elif part == "d":
             r.part_a(label="d")  # same fault enumeration, on a table with a long history (21 snapshots, 21 manifests)
         else:
@@ -635,7 +658,7 @@ def collapse(fails: List[Tuple[List[Any], Dict[str, Any]]], causes: List[Tuple[L
 def run(tier: str, seed: int) -> Report:
     rep = Report(PROP, tier, seed, LEVEL)
     backends = ["local"] if tier == "quick" else ["local", "s3"]
-    pls = [(part, tier, seed, b) for b in backends for part in ("a", "b", "c", "d", "e")]
+    pls = [(part, tier, seed, b) for b in backends for part in ("a", "b", "c", "d", "e", "f")]
     if tier == "quick":
         pls += [("a", tier, seed, "s3"), ("c", tier, seed, "s3")]  # request-level faults on the object store are cheap
     if seed:
